@@ -33,6 +33,7 @@ type LoopContract struct {
 	Ordinal    int
 	Invariants []Clause
 	Havoc      []string // extra heap arrays to havoc (rare)
+	GhostSets  []Let    // ghost snapshots taken when the loop is entered: ghostset g := expr
 }
 
 type ParamDecl struct {
@@ -399,7 +400,11 @@ func (cs *Contracts) parseFile(root, file string) error {
 				if err != nil {
 					return fmt.Errorf("%s: %v", d.pos, err)
 				}
-				cur.GhostSets = append(cur.GhostSets, Let{Name: strings.TrimSpace(kv[0]), Expr: e, Text: d.text})
+				if curLoop != nil {
+					curLoop.GhostSets = append(curLoop.GhostSets, Let{Name: strings.TrimSpace(kv[0]), Expr: e, Text: d.text})
+				} else {
+					cur.GhostSets = append(cur.GhostSets, Let{Name: strings.TrimSpace(kv[0]), Expr: e, Text: d.text})
+				}
 			case "let":
 				kv := strings.SplitN(d.text, ":=", 2)
 				if len(kv) != 2 {
